@@ -8,8 +8,7 @@ git checkout -q -- .
 if ! git apply --check "$D/patch.diff" 2>/dev/null; then echo "patch does not apply: $D"; exit 9; fi
 git apply "$D/patch.diff"
 cd /verif
-VERIF_REPO="$WT" ./check "$PROP" "$TIER" 2>&1 | grep -E "VIOLATION|KNOWN-FINDING|machinery|UNDECIDED|\] proof|internal|failed " | cut -c1-300
+mkdir -p /var/tmp/tryseed-evidence; VERIF_EVIDENCE_DIR=/var/tmp/tryseed-evidence VERIF_REPO="$WT" ./check "$PROP" "$TIER" 2>&1 | grep -E "VIOLATION|KNOWN-FINDING|machinery|UNDECIDED|\] proof|internal|failed " | cut -c1-300
 rc=${PIPESTATUS[0]}
 git -C "$WT" checkout -q -- .
-git -C /verif checkout -q -- evidence 2>/dev/null
 echo "exit=$rc"
